@@ -30,6 +30,10 @@ CLAIMED = {
             "Generated-input search over inputs <= 64 KiB: every major type x additional-info x declared length x 0..16 following bytes at 20 structural positions, nesting to depth 32000 (CBOR) / 65536 (JSON), long strings, many-key maps; each call's allocation must stay below 1 MiB + 1 KiB per input byte and return within 5 s; worker death by out-of-memory is attributed to the in-flight input. Exploration.",
             "TotalAlloc is process-wide: the worker runs one goroutine, GC workers do not allocate heap objects. The wall bound is only reported after 4 measurements (3 in fresh processes).",
             "DESIGN.md §4 C06"),
+    "C07": ("rapid over profile-claim classes x formats x registered-profile subsets (checkpoint hook), tokens from an independent CBOR encoder / own JSON writer; oracle = reference dispatcher + independent profile model of the selected profile",
+            "Generated-input search: bodies of either profile (valid or deviating), in CBOR (optionally with the other profile's body mixed in) and JSON, combined with every class of profile claim under each profile's key or member (absent, null, undefined, empty, non-text, 11 names) and every subset of three extra registered profiles; a reference dispatcher says which profile must be selected or that decoding must fail; the result type, decode-and-validate verdict (validity under the selected profile's rules, computed by the independent model with cross-read member names), reported profile and NewClaims(p) are compared.",
+            "Key 265 carrying ''/null/undefined/non-text or the profile-1 name gets the weaker verdict 'error or identical to the token without key 265' (specifications silent).",
+            "DESIGN.md §4 C07"),
     "C08": ("rapid: C01's valid and invalid claims-sets through all validating entry points, differential against Validate() and the non-validating sibling",
             "Generated-input search: each generated claims-set (0..4 deviating claims) goes through SetClaims, validate-and-encode CBOR/JSON, ValidateAndSign and the decode-and-validate variants (CBOR, JSON, COSE); a gate must fail iff Validate() fails (and iff the model says invalid), emit/attach nothing on failure, and equal its non-validating sibling on success.",
             "Trusts the profile model for the iff direction; bytes for decode gates come from the library's non-validating encoder or the independent encoder.",
